@@ -219,7 +219,20 @@ def r7(ctx: Ctx) -> RuleReport:
     need = {'penman.__main__:process', 'penman.__main__:_check'}
     if not need <= set(sc.chain) and not rep.violations():
         raise AnalysisError(f'R7: status chain {sc.chain} no longer reaches process and _check')
-    # process() is given args.check
+    # in process(): the model check depends on the --check flag only (not on the output format or anything else)
+    pr = ctx.repo.func('penman.__main__', 'process')
+    params = set(pr.params)
+    for call, ts in ctx.cg.calls_in(pr):
+        if any(t.kind == 'func' and t.func.qualname == '_check' for t in ts):
+            fx = facts_ex(ctx, pr, call)
+            others = sorted((f, pol) for f, pol in fx if any(isinstance(x, ast.Name) and x.id in params - {'check'} for x in ast.walk(ast.parse(f, mode='eval'))))
+            has = ('check', True) in fx
+            key = 'penman.__main__:process: the model check runs for every graph exactly when --check is given'
+            if others:
+                rep.violation(key, pr.loc(call), f'_check is also conditional on {others}: with that option combination --check checks nothing and '
+                              f'the exit status stays 0 whatever the graphs contain')
+            else:
+                rep.add(key, pr.loc(call), 'ok' if has else 'undecided', str(sorted(fx)))
     return rep
 
 
